@@ -31,6 +31,7 @@ func init() {
 			"no single-result type assertion on decoded values in the loader packages (C13.assert-ok); submatch indices ≤ groups of the constant pattern (C13.submatch)",
 			"the executor-config normaliser descends into both container kinds yaml.v2 produces, map[any]any and []any (C13.serialisable); SyncMap keys are strings",
 			"signalOnStop is stored only when SignalNum of that same value is non-zero; Schedule values only from expressions the cron parser accepted; a step only after its validator returned nil; a DAG only when the error list is empty and every builder error is added to it (C13.validity)",
+			"every struct type of the loader package reachable from dag.Step (fields, pointers, slices, maps; types that encode themselves excepted) has exported fields only: a step rebuilt from the run's record is the step that was loaded (C13.recorded-step-is-plain-data)",
 		},
 		NotDec: []string{
 			"termination and resource bounds of yaml / mapstructure / regexp",
@@ -62,6 +63,7 @@ func runC13(e *Env) {
 	c.serialisable()
 	c.validity()
 	c13DecodeKeysChecked(e)
+	c13StepIsPlainData(e, "C13.recorded-step-is-plain-data")
 }
 
 func (c *c13) collectDefTypes() {
